@@ -2,6 +2,7 @@
 From Coq Require Import List String NArith Bool.
 From FP Require Import Model.Chars Model.Ast Model.Sexp Model.Compile Spec.Tree.
 From FP Require Import Proofs.TreeHelpers Proofs.ImplicitPrint.
+From FP Require Import Spec.FileRecord Spec.FindSem Proofs.Corollaries.
 Import ListNotations.
 
 (** no action anywhere: the policy is (and <code of the expression> (print-relative-path)), the
@@ -24,6 +25,16 @@ Proof. exact implicit_print_not_added. Qed.
 (** "contains an action" means: an action node occurs at some depth *)
 Theorem C09_action_anywhere : forall e, has_action e = true <-> exists a, Subterm (EAction a) e.
 Proof. exact has_action_iff. Qed.
+
+(** what that means by find's rules (with C02, which shows the emitted policy means [feval (wrap e)]):
+    without an action the wrapped expression writes the relative path, newline-terminated, to
+    stdout for exactly the files on which the expression is true, and nothing else *)
+Theorem C09_meaning : forall h e clk f, has_action e = false ->
+  feval h (wrap e) clk f =
+    (fst (fst (feval h e clk f)),
+     if fst (fst (feval h e clk f)) then [(DStdout, f_relative_path f, Some 10%N)] else [],
+     false).
+Proof. exact implicit_print_meaning. Qed.
 
 Example C09_example :
   let dead := EOr (ETest TTrue) (ENot (EAction AQuit)) in       (* -true -o ! -quit *)
